@@ -38,7 +38,7 @@ NOT_DECIDED = [
     "ragged rows and merged cells (grid geometry is value level)",
     "order of tables in the output", "index arithmetic of the trimming code (which column index is recorded as the last data column)"]
 TRUSTED = ["the tree grammars in sa/schemas", "ElementTree axis semantics", "openpyxl iter_rows(values_only=True) yields every cell of the used range"]
-FLOORS = {"C13-STACK": 1, "C13-TAIL": 3, "C13-GRID": 4, "C13-ROWS": 4, "C13-ODS": 2, "C13-WALK": 60, "C13-KEY": 5, "C13-TRIM": 8, "C13-SPINE": 2, "C13-DIM": 5, "C13-VIEW": 5}
+FLOORS = {"C13-RTF": 1, "C13-CHUNK": 2, "C13-STACK": 1, "C13-TAIL": 3, "C13-GRID": 4, "C13-ROWS": 4, "C13-ODS": 2, "C13-WALK": 60, "C13-KEY": 5, "C13-TRIM": 8, "C13-SPINE": 2, "C13-DIM": 5, "C13-VIEW": 5}
 
 W = s_docx.NS["w"]
 TABLE_WALKS = [
@@ -548,11 +548,91 @@ def rule_tail(ctx: Ctx) -> RuleReport:
     return rep
 
 
+def _stack_sites(cls):
+    """(stack attribute names pushed by handle_starttag, function -> removal sites) of an HTMLParser subclass"""
+    hs = cls.methods.get("handle_starttag")
+
+    def self_attr(e):
+        return e.attr if isinstance(e, ast.Attribute) and isinstance(e.value, ast.Name) and e.value.id == "self" else None
+
+    pushed = {self_attr(c.func.value) for c in ast.walk(hs.node) if isinstance(c, ast.Call) and isinstance(c.func, ast.Attribute) and c.func.attr == "append" and self_attr(c.func.value)}
+
+    def removals(fn):
+        out = []
+        for x in walk_own(fn):
+            if isinstance(x, ast.Call) and isinstance(x.func, ast.Attribute) and x.func.attr == "pop" and self_attr(x.func.value) in pushed:
+                out.append((x, self_attr(x.func.value)))
+            elif isinstance(x, ast.Delete):
+                for t in x.targets:
+                    if isinstance(t, ast.Subscript) and self_attr(t.value) in pushed:
+                        out.append((x, self_attr(t.value)))
+            elif isinstance(x, ast.Assign) and any(isinstance(t, ast.Subscript) and isinstance(t.slice, ast.Slice) and self_attr(t.value) in pushed for t in x.targets):
+                out.append((x, next(self_attr(t.value) for t in x.targets if isinstance(t, ast.Subscript) and self_attr(t.value) in pushed)))
+        return out
+
+    return pushed, removals, self_attr
+
+
+def _conditions(body, target, acc):
+    """tests that hold when `target` executes: enclosing if / while tests and the tests of preceding guards that leave"""
+    pre = []
+    for st in body:
+        inside = any(x is target for x in ast.walk(st))
+        if inside:
+            acc.extend(pre)
+            if isinstance(st, (ast.If, ast.While)):
+                if any(x is target for b in st.body for x in ast.walk(b)):
+                    acc.append(st.test)
+                    return _conditions(st.body, target, acc)
+                return _conditions(st.orelse, target, acc)
+            if isinstance(st, (ast.For, ast.With, ast.Try)):
+                for blk in (getattr(st, "body", []), getattr(st, "orelse", []), getattr(st, "finalbody", [])) + tuple(h.body for h in getattr(st, "handlers", [])):
+                    if any(x is target for b in blk for x in ast.walk(b)):
+                        return _conditions(blk, target, acc)
+            return acc
+        if isinstance(st, ast.If) and st.body and isinstance(st.body[-1], (ast.Return, ast.Raise)) and not st.orelse:
+            pre.append(st.test)
+    return acc
+
+
+def _derived(fn, seeds, cls, stack, self_attr):
+    """locals of fn whose value is computed from the names in `seeds`; those among them whose computation also looks at the stack
+    (directly, or through a method of the class that reads it)"""
+    names, on_stack = set(seeds), set()
+
+    def reads_stack(e):
+        for x in ast.walk(e):
+            if self_attr(x) == stack:
+                return True
+            if isinstance(x, ast.Call) and isinstance(x.func, ast.Attribute) and isinstance(x.func.value, ast.Name) and x.func.value.id == "self" and x.func.attr in cls.methods \
+                    and any(self_attr(y) == stack for y in ast.walk(cls.methods[x.func.attr].node)):
+                return True
+        return False
+
+    changed = True
+    while changed:
+        changed = False
+        for a in walk_own(fn):
+            if isinstance(a, ast.Assign) and len(a.targets) == 1 and isinstance(a.targets[0], ast.Name):
+                v = a.targets[0].id
+                uses = {x.id for x in ast.walk(a.value) if isinstance(x, ast.Name)}
+                if uses & names:
+                    if v not in names:
+                        names.add(v)
+                        changed = True
+                    if (reads_stack(a.value) or uses & on_stack) and v not in on_stack:
+                        on_stack.add(v)
+                        changed = True
+    return names, on_stack
+
+
 def rule_stack(ctx: Ctx) -> RuleReport:
-    """The HTML grid is read off the tree the parser callbacks build: an end tag closes an element only when that element is open. An end
-    tag nobody opened (`</p>` or `</span>` inside a cell, ubiquitous in hand-written and mail HTML) must not close the cell, the row and
-    the table it sits in."""
-    rep = RuleReport("C13-STACK", "in handle_endtag every pop of the open-element stack executes under a condition that relates the end tag's name to the stack (the element is open)")
+    """The HTML grid is read off the tree the parser callbacks build. (1) An end tag closes an element only when that element is open: an
+    end tag nobody opened (`</p>` or `</span>` inside a cell, ubiquitous in hand-written and mail HTML) must not close the cell, the row
+    and the table it sits in. (2) The end tags of td, th and tr are optional (HTML Living Standard 13.1.2.4; minifiers drop them): a
+    `<td>` / `<th>` start tag closes an open cell, a `<tr>` start tag an open row -- otherwise every cell nests in the one before it and
+    the table comes back as one cell."""
+    rep = RuleReport("C13-STACK", "elements leave the open-element stack under a condition that relates the tag's name to the stack; the start tags of td / th / tr close an open cell / row (optional end tags)")
     n = 0
     for cls in ctx.p.all_classes():
         if "HTMLParser" not in ctx.p.base_names(cls):
@@ -560,62 +640,258 @@ def rule_stack(ctx: Ctx) -> RuleReport:
         hs, he = cls.methods.get("handle_starttag"), cls.methods.get("handle_endtag")
         if hs is None or he is None:
             continue
+        pushed, removals, self_attr = _stack_sites(cls)
+        # an open-element stack: pushed by the start-tag callback and shortened by the end-tag callback (an output list is only appended to)
+        in_end = {st_ for _c, st_ in removals(he.node)}
+        pushed.intersection_update(in_end)
+        if not pushed:
+            continue
+        # stacks every push of which stands under one and the same `tag == "<name>"` test hold elements of that one kind
+        homogeneous = {}
+        hs_tag = hs.node.args.args[1].arg if len(hs.node.args.args) > 1 else None
+        for stack in pushed:
+            kinds = set()
+            for c_ in ast.walk(hs.node):
+                if isinstance(c_, ast.Call) and isinstance(c_.func, ast.Attribute) and c_.func.attr == "append" and self_attr(c_.func.value) == stack:
+                    stmt_ = next(st for st in ast.walk(hs.node) if isinstance(st, ast.Expr) and st.value is c_)
+                    eqs = [t.comparators[0].value for t in _conditions(hs.node.body, stmt_, []) if isinstance(t, ast.Compare) and len(t.ops) == 1 and isinstance(t.ops[0], ast.Eq)
+                           and isinstance(t.left, ast.Name) and t.left.id == hs_tag and isinstance(t.comparators[0], ast.Constant)]
+                    kinds.add(eqs[0] if eqs else None)
+            if len(kinds) == 1 and None not in kinds:
+                homogeneous[stack] = kinds.pop()
+        for fn_i, kind in ((he, "end"), (hs, "start")):
+            args = fn_i.node.args.args
+            if len(args) < 2:
+                continue
+            sites = removals(fn_i.node)
+            for c, stack in sites:
+                tagnames, on_stack = _derived(fn_i.node, {args[1].arg}, cls, stack, self_attr)
+                stmt = c if isinstance(c, ast.stmt) else next(st for st in ast.walk(fn_i.node) if isinstance(st, ast.stmt) and not isinstance(st, (ast.If, ast.While, ast.For, ast.With, ast.Try, ast.FunctionDef)) and any(x is c for x in ast.walk(st)))
+                conds = _conditions(fn_i.node.body, stmt, [])
+
+                def relates(test):
+                    nm = {x.id for x in ast.walk(test) if isinstance(x, ast.Name)}
+                    return bool(nm & on_stack) or (bool(nm & tagnames) and any(self_attr(x) == stack for x in ast.walk(test)))
+
+                n += 1
+                rep.unit(fn_i.key)
+                kind_of = homogeneous.get(stack)
+                if kind_of is not None and any(norm(t) in (f"{a_} == {kind_of!r}" for a_ in tagnames) for t in conds) and any(self_attr(x) == stack for t in conds for x in ast.walk(t)):
+                    # a stack that only ever holds saved state of <kind_of> elements: "this is a <kind_of> tag and the stack is not empty"
+                    rep.ok({"parser": cls.name, "callback": fn_i.name, "removal": short(c, 40), "stack_of": kind_of, "under": [short(t, 50) for t in conds]})
+                elif any(relates(t) for t in conds):
+                    rep.ok({"parser": cls.name, "callback": fn_i.name, "removal": short(c, 40), "under": [short(t, 50) for t in conds if relates(t)]})
+                else:
+                    rep.fail(Finding("C13-STACK", cls.module.rel, fn_i.qual, f"self.{stack} shortened without asking whether the tag's element is open", f"`{short(stmt, 60)}` runs for every {kind} tag outside removed content, whether or not an element of that name is open (conditions on the way: {'; '.join(short(t, 40) for t in conds) or 'none'}): a stray `</p>` inside a table cell closes the cell, the row and the table, and the following cells land outside the grid", line=c.lineno))
+            if kind == "start" and not (pushed - set(homogeneous)):
+                continue
+            if kind == "start":
+                # (2) optional end tags of the table model (open-element stacks of a tree builder; a stack of saved table state is not one)
+                rep.unit(hs.key)
+                m = cls.module
+                tables = []
+                for x in ast.walk(hs.node):
+                    key = None
+                    if isinstance(x, ast.Call) and isinstance(x.func, ast.Attribute) and x.func.attr == "get" and x.args:
+                        key, box = x.args[0], x.func.value
+                    elif isinstance(x, ast.Subscript) and isinstance(x.ctx, ast.Load):
+                        key, box = x.slice, x.value
+                    if key is None or not isinstance(key, ast.Name) or key.id != args[1].arg:
+                        continue
+                    v = ctx.folder.fold(m, box)
+                    if isinstance(v, dict) and v and all(isinstance(k, str) for k in v):
+                        tables.append((box, v))
+                if not sites:
+                    rep.fail(Finding("C13-STACK", m.rel, hs.qual, "no start tag closes an open element", f"{cls.name}.handle_starttag never takes an element off self.{sorted(pushed)[0]}: the end tags of td, th and tr are optional in HTML, so in `<tr><td>a<td>b<tr><td>c<td>d` every cell nests in the one before it and a 2 x 2 table is returned as a single cell holding 'a b c d' (and, without `</table>` closing what is open inside it, the text after the table too)", line=hs.node.lineno))
+                    n += 1
+                    continue
+                WANT = {"td": {"td", "th"}, "th": {"td", "th"}, "tr": {"tr", "td", "th"}}
+                if not tables:
+                    rep.info.append(f"{cls.name}.handle_starttag shortens the stack, but not through a table keyed by the tag: which start tags imply which end tags is not decided")
+                    continue
+                box, v = tables[0]
+                for k, want in WANT.items():
+                    n += 1
+                    got = v.get(k)
+                    got = set(got) if isinstance(got, (set, frozenset, tuple, list)) else set()
+                    if want <= got:
+                        rep.ok({"parser": cls.name, "start_tag": k, "closes_open": sorted(got)})
+                    else:
+                        rep.fail(Finding("C13-STACK", m.rel, hs.qual, f"<{k}> does not close an open {' / '.join(sorted(want - got))}", f"`{norm(box)}` lets a <{k}> start tag close {sorted(got) or 'nothing'}: an open {' / '.join(sorted(want - got))} whose end tag was omitted stays open, the new {'row' if k == 'tr' else 'cell'} nests inside it and the grid loses its shape", line=hs.node.lineno))
+    if n < 1:
+        raise AnalysisError("C13-STACK: no HTMLParser subclass with an open-element stack found (1 confirmed: _HtmlTreeBuilder)")
+    # (3) parsers that keep the table being read in flat attributes (no tree): a <table> start tag resets them; when a table is already
+    # open (a table inside a cell) they are saved first -- otherwise the rows of the enclosing table read so far are thrown away, and its
+    # remaining cells land outside any table
+    n_flat = 0
+    for cls in ctx.p.all_classes():
+        if "HTMLParser" not in ctx.p.base_names(cls):
+            continue
+        hs, he = cls.methods.get("handle_starttag"), cls.methods.get("handle_endtag")
+        if hs is None or he is None or len(hs.node.args.args) < 2:
+            continue
+        tagp = hs.node.args.args[1].arg
 
         def self_attr(e):
             return e.attr if isinstance(e, ast.Attribute) and isinstance(e.value, ast.Name) and e.value.id == "self" else None
 
-        pushed = {self_attr(c.func.value) for c in ast.walk(hs.node) if isinstance(c, ast.Call) and isinstance(c.func, ast.Attribute) and c.func.attr == "append" and self_attr(c.func.value)}
-        args = he.node.args.args
-        if len(args) < 2:
-            continue
-        tagnames = {args[1].arg}
-        changed = True
-        while changed:
-            changed = False
-            for a in walk_own(he.node):
-                if isinstance(a, ast.Assign) and len(a.targets) == 1 and isinstance(a.targets[0], ast.Name) and a.targets[0].id not in tagnames and any(isinstance(x, ast.Name) and x.id in tagnames for x in ast.walk(a.value)):
-                    tagnames.add(a.targets[0].id)
-                    changed = True
-
-        def relates(test, stack):
-            names = {x.id for x in ast.walk(test) if isinstance(x, ast.Name)}
-            return bool(names & tagnames) and any(self_attr(x) == stack for x in ast.walk(test))
-
-        def conditions(body, target, acc):
-            """tests that hold when `target` executes: enclosing if / while tests and the tests of preceding guards that leave"""
-            pre = []
-            for st in body:
-                inside = any(x is target for x in ast.walk(st))
-                if inside:
-                    acc.extend(pre)
-                    if isinstance(st, (ast.If, ast.While)):
-                        if any(x is target for b in st.body for x in ast.walk(b)):
-                            acc.append(st.test)
-                            return conditions(st.body, target, acc)
-                        return conditions(st.orelse, target, acc)
-                    if isinstance(st, (ast.For, ast.With, ast.Try)):
-                        for blk in (getattr(st, "body", []), getattr(st, "orelse", []), getattr(st, "finalbody", [])) + tuple(h.body for h in getattr(st, "handlers", [])):
-                            if any(x is target for b in blk for x in ast.walk(b)):
-                                return conditions(blk, target, acc)
-                    return acc
-                if isinstance(st, ast.If) and st.body and isinstance(st.body[-1], (ast.Return, ast.Raise)) and not st.orelse:
-                    pre.append(st.test)
-            return acc
-
-        for c in walk_own(he.node):
-            if isinstance(c, ast.Call) and isinstance(c.func, ast.Attribute) and c.func.attr == "pop" and self_attr(c.func.value) in pushed:
-                stack = self_attr(c.func.value)
-                stmt = next(st for st in ast.walk(he.node) if isinstance(st, ast.stmt) and not isinstance(st, (ast.If, ast.While, ast.For, ast.With, ast.Try, ast.FunctionDef)) and any(x is c for x in ast.walk(st)))
-                conds = conditions(he.node.body, stmt, [])
-                n += 1
-                rep.unit(he.key)
-                if any(relates(t, stack) for t in conds):
-                    rep.ok({"parser": cls.name, "pop": short(c, 40), "under": [short(t, 50) for t in conds if relates(t, stack)]})
-                else:
-                    rep.fail(Finding("C13-STACK", cls.module.rel, he.qual, f"self.{stack}.pop() not conditional on the end tag being open", f"`{short(stmt, 60)}` runs for every end tag outside removed content, whether or not an element of that name is open (conditions on the way: {'; '.join(short(t, 40) for t in conds) or 'none'}): a stray `</p>` inside a table cell closes the cell, the row and the table, and the following cells land outside the grid", line=c.lineno))
-    if n < 1:
-        raise AnalysisError("C13-STACK: no pop of an open-element stack in an HTMLParser subclass found (1 confirmed: _HtmlTreeBuilder.handle_endtag)")
+        for br in [i for i in walk_own(hs.node) if isinstance(i, ast.If) and norm(i.test) == f"{tagp} == 'table'"]:
+            resets = {self_attr(t) for st in br.body for a in ast.walk(st) if isinstance(a, ast.Assign) and isinstance(a.value, ast.List) and not a.value.elts for t in a.targets if self_attr(t)}
+            if not resets:
+                continue
+            # the accumulators among them: those the end-tag callback flushes into something else
+            flushed = {r for r in resets if any(isinstance(c, ast.Call) and isinstance(c.func, ast.Attribute) and c.func.attr in ("append", "insert", "extend") and any(self_attr(x) == r for a_ in c.args for x in ast.walk(a_)) for c in ast.walk(he.node))}
+            if not flushed:
+                continue
+            n_flat += 1
+            rep.unit(hs.key)
+            saved = {self_attr(x) for st in br.body for c in ast.walk(st) if isinstance(c, ast.Call) and isinstance(c.func, ast.Attribute) and c.func.attr == "append" and self_attr(c.func.value) for a_ in c.args for x in ast.walk(a_) if self_attr(x)}
+            lost = sorted(flushed - saved)
+            if lost:
+                rep.fail(Finding("C13-STACK", cls.module.rel, hs.qual, "a nested <table> resets " + ", ".join("self." + a for a in lost) + " without saving", f"the <table> branch of {cls.name}.handle_starttag sets {', '.join('self.' + a for a in lost)} to an empty list whether or not a table is already open: for a table inside a cell the rows of the enclosing table read so far are discarded, the enclosing table is never returned and its remaining cells spill into the text", line=br.lineno))
+            else:
+                rep.ok({"parser": cls.name, "nested_table": "state of the enclosing table saved: " + ", ".join(sorted(flushed))})
+    rep.info.append(f"{n_flat} parser(s) keep the table being read in flat attributes")
     return rep
 
 
-RULES = [rule_walk, rule_key, rule_trim, rule_spine, rule_dim, rule_view, rule_rows, rule_ods, rule_grid, rule_tail, rule_stack]
+def rule_chunk(ctx: Ctx) -> RuleReport:
+    """html.parser hands character data to handle_data in pieces: a new piece starts after every tag, and (outside convert_charrefs) at
+    every reference. The pieces of `Net<b>work</b>ing` are 'Net', 'work', 'ing'. A cell (or any text) assembled from the pieces is their
+    concatenation; a separator between the pieces invents blanks inside words."""
+    rep = RuleReport("C13-CHUNK", "lists that handle_data appends its pieces to are joined with the empty string")
+    n = 0
+    for cls in ctx.p.all_classes():
+        if "HTMLParser" not in ctx.p.base_names(cls):
+            continue
+        hd = cls.methods.get("handle_data")
+        if hd is None or len(hd.node.args.args) < 2:
+            continue
+        datap = hd.node.args.args[1].arg
+
+        def self_attr(e):
+            return e.attr if isinstance(e, ast.Attribute) and isinstance(e.value, ast.Name) and e.value.id == "self" else None
+
+        acc = {self_attr(c.func.value) for c in ast.walk(hd.node) if isinstance(c, ast.Call) and isinstance(c.func, ast.Attribute) and c.func.attr == "append" and self_attr(c.func.value)
+               and c.args and any(isinstance(x, ast.Name) and x.id == datap for x in ast.walk(c.args[0]))}
+        for mth in cls.methods.values():
+            for c in ast.walk(mth.node):
+                if isinstance(c, ast.Call) and isinstance(c.func, ast.Attribute) and c.func.attr == "join" and c.args and self_attr(c.args[0]) in acc:
+                    n += 1
+                    rep.unit(mth.key)
+                    sep = ctx.folder.fold(mth.module, c.func.value) if not isinstance(c.func.value, ast.Constant) else c.func.value.value
+                    if sep == "":
+                        rep.ok({"parser": cls.name, "pieces": "self." + self_attr(c.args[0]), "joined_in": mth.name, "separator": ""})
+                    else:
+                        rep.fail(Finding("C13-CHUNK", cls.module.rel, mth.qual, f"pieces of self.{self_attr(c.args[0])} joined with {sep!r}", f"`{short(c, 50)}` puts {sep!r} between the pieces handle_data received; a new piece starts at every inline tag, so <td>Net<b>work</b>ing</td> is returned as 'Net work ing' and H<sub>2</sub>O as 'H 2 O'", line=c.lineno))
+    if n < 2:
+        raise AnalysisError(f"C13-CHUNK: only {n} joins of character-data pieces found (2 confirmed: chapter text, table cell of the EPUB chapter parser)")
+    # (b) with the pieces concatenated, what separates the words of two paragraphs of one cell is the break the tag callbacks emit: while a
+    # cell is open (the flag under which handle_data feeds the cell) a break goes to the cell, not past it into the running text
+    for cls in ctx.p.all_classes():
+        if "HTMLParser" not in ctx.p.base_names(cls):
+            continue
+        hd = cls.methods.get("handle_data")
+        if hd is None or len(hd.node.args.args) < 2:
+            continue
+        datap = hd.node.args.args[1].arg
+
+        def self_attr(e):
+            return e.attr if isinstance(e, ast.Attribute) and isinstance(e.value, ast.Name) and e.value.id == "self" else None
+
+        cell_acc, flag, text_acc = None, None, None
+        for st in hd.node.body:
+            if isinstance(st, ast.If) and self_attr(st.test) and any(isinstance(c, ast.Call) and isinstance(c.func, ast.Attribute) and c.func.attr == "append" and self_attr(c.func.value) and c.args and isinstance(c.args[0], ast.Name) and c.args[0].id == datap for c in ast.walk(st)):
+                c = next(c for c in ast.walk(st) if isinstance(c, ast.Call) and isinstance(c.func, ast.Attribute) and c.func.attr == "append" and self_attr(c.func.value))
+                cell_acc, flag = self_attr(c.func.value), self_attr(st.test)
+            elif isinstance(st, ast.Expr) and isinstance(st.value, ast.Call) and isinstance(st.value.func, ast.Attribute) and st.value.func.attr == "append" and self_attr(st.value.func.value):
+                text_acc = self_attr(st.value.func.value)
+        if not (cell_acc and flag and text_acc) or not any(self_attr(c.args[0]) == cell_acc for m_ in cls.methods.values() for c in ast.walk(m_.node) if isinstance(c, ast.Call) and isinstance(c.func, ast.Attribute) and c.func.attr == "join" and c.args):
+            continue
+        for name, mth in cls.methods.items():
+            if name == "handle_data":
+                continue
+            tests_flag = any(self_attr(x) == flag for i in ast.walk(mth.node) if isinstance(i, (ast.If, ast.IfExp)) for x in ast.walk(i.test))
+            for c in ast.walk(mth.node):
+                if isinstance(c, ast.Call) and isinstance(c.func, ast.Attribute) and c.func.attr == "append" and self_attr(c.func.value) == text_acc and c.args and isinstance(c.args[0], ast.Constant) and isinstance(c.args[0].value, str) and c.args[0].value.strip() == "":
+                    stmt = next(st for st in ast.walk(mth.node) if isinstance(st, ast.Expr) and st.value is c)
+                    conds = _conditions(mth.node.body, stmt, [])
+                    n += 1
+                    rep.unit(mth.key)
+                    if any(self_attr(x) == flag for t in conds for x in ast.walk(t)) or (tests_flag and not name.startswith("handle_")):
+                        rep.ok({"parser": cls.name, "break_in": name, "routed_by": "self." + flag})
+                    else:
+                        rep.fail(Finding("C13-CHUNK", cls.module.rel, mth.qual, f"break appended to self.{text_acc} whether or not a cell is open", f"`{short(c, 40)}` in {name} writes the break of a block boundary / <br> to the running text also while self.{flag} is set; the pieces of a cell are concatenated, so nothing separates the paragraphs of one cell: <td><p>first</p><p>second</p></td> is returned as 'firstsecond'", line=c.lineno))
+    return rep
+
+
+def rule_rtf(ctx: Ctx) -> RuleReport:
+    """RTF tables are cut out of the control-word stream. (a) Every \\row ends a row: the list of rows is driven by the \\row matches. A list
+    driven by the \\trowd matches (one row per row definition) loses every row that does not restate the definition. (b) Whether two rows
+    belong to the same table is decided by what lies between them (a paragraph, text), never by *how much* of it there is: a comparison
+    of a length with a positive constant merges tables that a short paragraph separates."""
+    rep = RuleReport("C13-RTF", "RTF: one table row per \\row; the break between two tables does not depend on the length of what separates them")
+    RTF = X + "ms_legacy/rtf_extractor.py"
+    m = ctx.p.module(RTF)
+    fi = next((f for f in m.functions.values() if f.name == "_extract_tables"), None)
+    if fi is None:
+        raise AnalysisError("C13-RTF: _extract_tables of the RTF reader not found")
+    rep.unit(fi.key)
+
+    def regex_of(e):
+        """pattern text of the compiled regex a `<x>.finditer(...)` call is made on"""
+        if isinstance(e, ast.Call) and isinstance(e.func, ast.Attribute) and e.func.attr in ("finditer", "findall"):
+            v = e.func.value
+            if isinstance(v, ast.Name):
+                for a in m.tree.body:
+                    if isinstance(a, ast.Assign) and len(a.targets) == 1 and isinstance(a.targets[0], ast.Name) and a.targets[0].id == v.id and isinstance(a.value, ast.Call) and a.value.args:
+                        pat = ctx.folder.fold(m, a.value.args[0])
+                        return pat if isinstance(pat, str) else None
+        return None
+
+    roles = {}
+    for a in walk_own(fi.node):
+        if isinstance(a, ast.Assign) and len(a.targets) == 1 and isinstance(a.targets[0], ast.Name):
+            for x in ast.walk(a.value):
+                pat = regex_of(x)
+                if pat is not None:
+                    if "trowd" in pat:
+                        roles[a.targets[0].id] = "trowd"
+                    elif "row" in pat:
+                        roles[a.targets[0].id] = "row"
+    if set(roles.values()) != {"trowd", "row"}:
+        raise AnalysisError(f"C13-RTF: positions of \\trowd and \\row in _extract_tables not recognised ({roles})")
+    # (a) the loop that appends row spans
+    span_lists = {}
+    for lp in [n for n in fi.node.body if isinstance(n, ast.For)]:
+        for c in ast.walk(lp):
+            if isinstance(c, ast.Call) and isinstance(c.func, ast.Attribute) and c.func.attr == "append" and isinstance(c.func.value, ast.Name) and c.args and isinstance(c.args[0], ast.Tuple) \
+                    and any(isinstance(x, ast.Subscript) and isinstance(x.slice, ast.Slice) for x in ast.walk(c.args[0])):
+                span_lists[c.func.value.id] = (lp, c)
+    if not span_lists:
+        raise AnalysisError("C13-RTF: the loop that collects (start, end, content) of the rows was not found")
+    for name, (lp, c) in span_lists.items():
+        driver = roles.get(lp.iter.id) if isinstance(lp.iter, ast.Name) else None
+        if driver == "row":
+            rep.ok({"rtf_rows": f"{name}: one entry per \\row"})
+        elif driver == "trowd":
+            inner_break = any(isinstance(b, ast.Break) for b in ast.walk(lp))
+            rep.fail(Finding("C13-RTF", RTF, fi.qual, "one table row per \\trowd", f"`{short(lp, 40)}` collects one row for every \\trowd ({'the first \\row after it' if inner_break else 'rows after it'}): a row that does not restate the row definition -- Word 97 writes \\trowd for the first rows of a table only, the repo's own fixture 02_dept_transport.rtf has 296 \\row and 66 \\trowd -- is in the text but in no table", line=lp.lineno))
+        else:
+            raise AnalysisError(f"C13-RTF: what drives the loop that fills {name} is not recognised")
+    # (b) the break test
+    n_len = 0
+    for i in [x for x in walk_own(fi.node) if isinstance(x, ast.If)]:
+        for cmp_ in [x for x in ast.walk(i.test) if isinstance(x, ast.Compare) and len(x.ops) == 1 and isinstance(x.ops[0], (ast.Gt, ast.GtE, ast.Lt, ast.LtE))]:
+            k = ctx.folder.fold(m, cmp_.comparators[0])
+            left = cmp_.left
+            is_len = (isinstance(left, ast.Call) and isinstance(left.func, ast.Name) and left.func.id == "len") or (isinstance(left, ast.BinOp) and isinstance(left.op, ast.Sub))
+            if is_len and isinstance(k, int) and not isinstance(k, bool) and k > 1:
+                n_len += 1
+                rep.fail(Finding("C13-RTF", RTF, fi.qual, f"table break by size: {anorm(cmp_, fi.node)}", f"`{short(cmp_, 50)}` makes the break between two tables depend on the amount of RTF / text between their rows: tables separated by a paragraph shorter than that (a caption 'Table 2', an empty paragraph, a page break) are returned as one table", line=cmp_.lineno))
+    if n_len == 0:
+        rep.ok({"rtf_table_break": "no size threshold"})
+    return rep
+
+
+RULES = [rule_walk, rule_key, rule_trim, rule_spine, rule_dim, rule_view, rule_rows, rule_ods, rule_grid, rule_tail, rule_stack, rule_chunk, rule_rtf]
